@@ -333,7 +333,16 @@ fn hook_sched(_label: &'static str) {
     }
 }
 
+thread_local! {
+    /// while set, data choices (eviction victims) are answered with alternative 0 and are not
+    /// branching points of the exploration
+    pub static FIXED_CHOICES: Cell<bool> = const { Cell::new(false) };
+}
+
 fn hook_choose(n: usize) -> Option<usize> {
+    if FIXED_CHOICES.with(|c| c.get()) {
+        return if n > 0 { Some(0) } else { None };
+    }
     crate::explore::choose_data(n)
 }
 
